@@ -43,6 +43,7 @@ type SetNodeSpec struct {
 	Labels   map[string]string `json:"labels,omitempty"`
 	MemDelta int64             `json:"mem_delta,omitempty"` // bytes, may be negative
 	AddCore  int               `json:"add_core"`            // -1 none; else add one share to core id AddCore (a new core if it does not exist)
+	Abs      bool              `json:"abs,omitempty"`       // absolute request (Delta=false): memory := capacity + max(MemDelta, 0); cores untouched
 }
 
 // Op is one cluster API call of a history.
@@ -157,6 +158,10 @@ func genSetNode(t *rapid.T, s Setup) *SetNodeSpec {
 	if vt.Chance(t, "snCore", 30) {
 		sn.AddCore = rapid.IntRange(0, 4).Draw(t, "snCoreID")
 	}
+	if vt.Chance(t, "snAbs", 30) {
+		sn.Abs = true
+		sn.AddCore = -1
+	}
 	return sn
 }
 
@@ -223,6 +228,17 @@ func (r *opRunner) setNodeOptions(sn *SetNodeSpec) *types.SetNodeOptions {
 		o.Bypass = types.TriFalse
 	}
 	p := resourcetypes.RawParams{}
+	if sn.Abs {
+		o.Delta = false
+		r.w.IC.Disable(true)
+		rec, ok := r.w.RawNodeRecord(sn.Node)
+		r.w.IC.Disable(false)
+		if ok {
+			p["memory"] = fmt.Sprint(rec.Capacity.Memory + max(sn.MemDelta, 0))
+			o.Resources = resourcetypes.Resources{"cpumem": p}
+		}
+		return o
+	}
 	if sn.MemDelta != 0 {
 		d := sn.MemDelta
 		if d < 0 {
@@ -542,4 +558,9 @@ func genFault(t *rapid.T, kind string, s Setup) *world.Fault {
 		name += "@" + rapid.SampledFrom(s.Nodes).Draw(t, "faultNode").Name
 	}
 	return &world.Fault{Name: name, Occ: rapid.IntRange(1, 3).Draw(t, "faultOcc")}
+}
+
+// timeoutFinding: findings that rest on a watchdog (stream did not close, world not quiescent).
+func timeoutFinding(f *vt.Finding) bool {
+	return strings.Contains(f.Key, "stream-not-closed") || strings.Contains(f.Key, "not-quiescent")
 }
